@@ -162,13 +162,15 @@ def check_indent(ast, indent):
     return None
 
 
-def check_indent_loose(ast, indent):
+def check_indent_loose(ast, indent, strict_heads):
     """for trees that also contain text-only nodes `{...}` and self-closing elements `x/`.  The statement
     says nothing about where the text of a text-only node goes nor about a self-closing mark, so only this
     is required: the output lines, read in order, contain for every element -- in document order -- one
     line of its own with indentation == depth that reads `head + attribute list`, then nothing / a space
     and anything (/ the element's own one-line text and anything); self-closing: optionally `/`.  Every
-    other line must consist of text that the abbreviation wrote (plus blanks and `|` markers) only."""
+    other line must consist of text that the abbreviation wrote (plus blanks and `|` markers) only.
+    With strict_heads False the line of an element only has to *start* with its head (text may run into
+    it): that variant checks order, own line and depth only."""
     from emmet import expand
     abbr = G.print_abbr(ast)
     forest = denote_full(ast)
@@ -207,7 +209,9 @@ def check_indent_loose(ast, indent):
             if k < len(elements):
                 depth, head, text, close = elements[k]
                 ok = False
-                if text is not None:
+                if not strict_heads:
+                    ok = body.startswith(head)
+                elif text is not None:
                     ok = body.startswith(head + ' ' + text)
                 else:
                     rest = body[len(head):] if body.startswith(head) else None
@@ -240,7 +244,7 @@ def decoration(k, j):
         {},
         {'cls': ['c%d' % j]},
         {'id': 'i%d' % j},
-        {'id': 'i%d' % j, 'cls': ['c%d' % j, 'k']},
+        {'id': 'i%d' % j, 'cls': ['c%d' % j, 'k', 'm-%d' % j]},
         {'attrs': [['title', 't%d' % j]]},
         {'cls': ['c%d' % j], 'attrs': [['title', 't%d' % j], ['data-n', 'v%d' % j]]},
         {'text': 'T%d' % j},
@@ -342,7 +346,7 @@ def decorate_loose(skel, reps, offset):
     return items(skel)
 
 
-def loose_cases(plan):
+def loose_cases(plan, strict):
     idx = 0
     for (n, gmax, rmax), nvar in plan:
         for g in range(0, gmax + 1):
@@ -351,7 +355,7 @@ def loose_cases(plan):
                 for reps in G.rep_assignments(m, rmax, (2,)):
                     for v in range(nvar):
                         idx += 1
-                        yield (decorate_loose(skel, reps, idx), INDENTS[idx % len(INDENTS)])
+                        yield (decorate_loose(skel, reps, idx), INDENTS[idx % len(INDENTS)], strict)
 
 
 def random_cases(seed, count):
@@ -396,20 +400,26 @@ def run(tier, seed):
     out.append(c.done())
 
     c = Clause('head-forms', 'B',
-               '5 name kinds (div, p, ul, span, implicit) x 10 decorations (bare, class, id, id+classes, attribute, class+attributes, text, '
+               '5 name kinds (div, p, ul, span, implicit) x 10 decorations (bare, class, id, id+3 classes, attribute, class+attributes, text, '
                '2-line text, class+3-line text, id+attribute+text) x 10 positions in a small tree x 4 indent strings',
                'complete product as stated', 'a case is (AST, indent string)', exhaustive=True)
     run_parallel(c, 'bounded.c15', 'check_indent', head_cases(), chunk=100)
     out.append(c.done())
 
-    c = Clause('text-only-and-self-closing', 'B',
-               'operator skeletons whose leaves are, in rotation, text-only nodes {T} / {L1\\nL2}, self-closing elements name/ , br, hr '
-               'and ordinary decorated elements; haml, pug, slim; indent rotating over %r' % INDENTS,
-               ' | '.join('%d elements, <=%d groups, <=%d repeaters (*2): %d rotation(s)' % (s + (v,)) for s, v in loose),
-               'a case is (AST, indent string); only the element lines are constrained (own line, depth, head), see check_indent_loose',
-               exhaustive=True)
-    run_parallel(c, 'bounded.c15', 'check_indent_loose', loose_cases(loose), chunk=300)
-    out.append(c.done())
+    for name, strict, what in (
+            ('text-only-self-closing-levels', False,
+             'every element has, in document order, a line of its own that starts with its head and is indented by its depth '
+             '(no level leak after text-only / self-closing nodes); other lines consist of text of the abbreviation'),
+            ('text-only-self-closing-heads', True,
+             'as the -levels clause, and the head of every element line ends where name#id.class + attribute list end '
+             '(end of line, blank, or the self-closing mark): text of a text-only node must not run into a head')):
+        c = Clause(name, 'B',
+                   'operator skeletons whose leaves are, in rotation, text-only nodes {T} / {L1\\nL2}, self-closing elements name/ , br, hr '
+                   'and ordinary decorated elements; haml, pug, slim; indent rotating over %r' % INDENTS,
+                   ' | '.join('%d elements, <=%d groups, <=%d repeaters (*2): %d rotation(s)' % (s + (v,)) for s, v in loose),
+                   'a case is (AST, indent string, strict_heads); ' + what, exhaustive=True)
+        run_parallel(c, 'bounded.c15', 'check_indent_loose', loose_cases(loose, strict), chunk=300)
+        out.append(c.done())
 
     c = Clause('random-large', 'B', 'seeded random ASTs of 5..30 elements with random decorations and 7 indent strings',
                '%d cases, seed %d' % (nrand, seed), 'a case is (AST, indent string)', exhaustive=False)
